@@ -33,7 +33,7 @@ ASSUMPTIONS = [
 ]
 CONFIG = {
     "quick": {"examples": 32, "shards": 16, "shrink_s": 90, "time_budget_s": 280},
-    "thorough": {"examples": 256, "shards": 16, "shrink_s": 240, "time_budget_s": 1500},
+    "thorough": {"examples": 432, "shards": 16, "shrink_s": 240, "time_budget_s": 1500},
 }
 
 
